@@ -6,6 +6,7 @@ import Driver.Common
 import GivaroModel.Model.Poly
 import GivaroModel.Model.PolyInterp
 import GivaroModel.Model.PolyMore
+import GivaroModel.Model.PolyCRT
 import GivaroModel.Spec.PolySpec
 -- @driver-mode poly Driver.Poly.polyLine
 namespace Driver.Poly
@@ -400,10 +401,11 @@ def polyCase (thr : Nat) (key : String) (a : Array String) (r : Array String) : 
     let xs ← P 0; let fs ← P 1; let q ← RP 0
     if xs.length != fs.length || xs.isEmpty || xs.eraseDups.length != xs.length then pure { pre := false, spec := true } else
     let ok := (xs.zip fs).all (fun (x, f) => seval q.1 x = f)
-    pure { spec := ok && decide (sdeg q.1 < xs.length) && degOk q }
+    let m := Givaro.Model.PolyCRT.rnsToRing thr xs fs
+    pure { spec := ok && decide (sdeg q.1 < xs.length) && degOk q, model := eqv m q.1, info := renderPoly (norm m) }
   | "rtr" => do
     let xs ← P 0; let A ← P 1; let rs ← r[0]? >>= parsePoly
-    pure { spec := rs = xs.map (fun x => seval A x) }
+    pure { spec := rs = xs.map (fun x => seval A x), model := rs = Givaro.Model.PolyCRT.ringToRns xs A }
   | "padic_eval" => do
     let A ← P 0; let e ← r[0]? >>= parseHexInt
     let p : Nat := FieldIO.card K
